@@ -80,7 +80,7 @@ class QScope:
 
 
 class Obligation:
-    __slots__ = ("name", "pc", "goal", "info", "verdict", "model", "secs", "backend", "path", "zmodel", "hints")
+    __slots__ = ("name", "pc", "goal", "info", "verdict", "model", "secs", "backend", "path", "zmodel", "hints", "group")
 
     def __init__(self, name, pc, goal, info=None):
         self.name = name
@@ -94,6 +94,7 @@ class Obligation:
         self.path = None
         self.zmodel = None
         self.hints = []
+        self.group = None
 
 
 class Ctx:
@@ -174,6 +175,26 @@ class Ctx:
             if not has_quant(g):
                 self.solver.add(g)
         return ob
+
+    def oblige_all(self, items, **info):
+        """Several named obligations over the same path condition; discharged with one query when they all hold."""
+        self.ngroup = getattr(self, "ngroup", 0) + 1
+        pc0 = list(self.pc)
+        obs = []
+        for name, goal in items:
+            g = self._guarded(tobool(goal))
+            ob = Obligation(name, pc0, g, dict(info))
+            ob.path = list(self.decisions[: self.pos])
+            ob.hints = list(self.size_hints)
+            ob.group = self.ngroup
+            self.obligations.append(ob)
+            obs.append(ob)
+        for ob in obs:
+            if not z3.is_true(ob.goal):
+                self.pc.append(ob.goal)
+                if not has_quant(ob.goal):
+                    self.solver.add(ob.goal)
+        return obs
 
     def feasible(self, t):
         self.solver.push()
